@@ -43,6 +43,14 @@ Kernels (DESIGN.md section 4, C08):
         K5:cli     REAL instructions that resolve their references in validate-post-setup (`exists`, reaching 12
                    value types), validate-pre-sds and main, after a `def` in setup / before-assert / assert, through
                    the REAL MainProgram.execute: PASS / FAIL according to the DEFINED value.        [selector]
+  K6  references written in the ACT phase, for EVERY actor (command line, file interpreter, source interpreter, null) and every
+      place of a reference (program name, arguments, -stdin, -transformed-by, program symbol + extra arguments, shell command
+      line, executable file, file name and arguments of the file interpreter, source lines, the ACT-INTERPRETER of `actor = ...`),
+      the actor named in [conf] of the case, in [conf] of a suite, by --actor or not at all; the referenced symbol undefined,
+      defined in [setup] / [before-assert] / [assert] / [cleanup], of any value type (a constant, or built from another symbol),
+      through the REAL MainProgram.execute: VALIDATION_ERROR with nothing executed (no process - not even the one of [setup] -
+      and no sandbox) unless the symbol is defined in [setup] with a type the place accepts; then PASS and the process of the
+      action to check receives the DEFINED value (argv / command line / stdin / source file / transformed stdout).  [selector]
 
 Regions (known findings; switched on by known_findings.json):
   C08-cleanup-references-skipped-definition   the definition passed validation but never ran, and a [cleanup]
@@ -1222,6 +1230,86 @@ def k5_cli(use: int, dp: int, holds: bool) -> bool:
     return ob.post(ok)
 
 
+# ============================================================================ K6
+
+REAL_K6 = (
+    'exactly_lib.cli.main_program.MainProgram.execute',
+    'exactly_lib.execution.partial_execution.impl.executor._PartialExecutor.execute',
+    'exactly_lib.execution.partial_execution.impl.executor.parse_atc_and_validate_symbols',
+    'exactly_lib.execution.partial_execution.impl.symbol_validation.SymbolsValidator',
+    'exactly_lib.execution.impl.symbol_validation.validate_symbol_usages',
+    'exactly_lib.impls.instructions.configuration.utils.actor_utils.parse',
+    'exactly_lib.impls.actors.util.parse_act_interpreter.parser',
+    'exactly_lib.impls.actors.util.actor_from_parts.parts.ActorFromParts',
+    'exactly_lib.impls.actors.util.actor_from_parts.parts.ActionToCheckFromParts',
+    'exactly_lib.impls.actors.program.actor.actor',
+    'exactly_lib.impls.actors.program.parse.Parser',
+    'exactly_lib.impls.actors.program.executable_object.ProgramToExecute',
+    'exactly_lib.impls.actors.program.execution.Executor',
+    'exactly_lib.impls.actors.file_interpreter.actor',
+    'exactly_lib.impls.actors.file_interpreter._Actor',
+    'exactly_lib.impls.actors.file_interpreter._ActionToCheck',
+    'exactly_lib.impls.actors.file_interpreter._Parsing',
+    'exactly_lib.impls.actors.file_interpreter._SourceInfoForInterpreterWithArgumentList',
+    'exactly_lib.impls.actors.source_interpreter.actor.actor',
+    'exactly_lib.impls.actors.source_interpreter.parser.Parser',
+    'exactly_lib.impls.actors.source_interpreter.parser.InterpreterAndSourceInfo',
+    'exactly_lib.impls.actors.source_interpreter.executor.Executor',
+    'exactly_lib.impls.actors.null.actor',
+    'exactly_lib.cli.program_modes.common.argument_parsing_of_actor.resolve_actor_from_argparse_argument',
+    'exactly_lib.impls.types.program.parse.parse_program.program_parser',
+    'exactly_lib.impls.types.program.parse.parse_arguments.parser',
+    'exactly_lib.impls.instructions.multi_phase.define_symbol.parser.EmbryoParser.parse',
+    'exactly_lib.impls.instructions.multi_phase.define_symbol.parser.TheInstructionEmbryo.main',
+)
+
+
+def _k6_cell_is_meaningful(dp: int, const, link) -> bool:
+    """No definition at all: the reference is to the undefined name (first constant, unused selector) or to a builtin;
+    a builtin is not defined: with a definition phase it is the start of a chain."""
+    if dp == 0:
+        return link is None and (const[1] is None or const[0] == 'string')
+    return const[1] is not None or link is not None
+
+
+def _k6_cell(st: int, wy: int, dp: int, c: int, l: int):
+    """The selectors made concrete -> (site, way, phase of the definitions, constant, link)"""
+    from harness import _C08_act as act
+    case = ob.case()
+    site = act.SITES[ob.pick(case['sites'], st)]
+    way = ob.pick(case['ways'], wy)
+    dphase = ob.pick(case['phases'], dp)
+    const = act.CONSTS[ob.pick(case['consts'], c)]
+    li = ob.pick(case['links'], l)
+    return site, way, dphase, const, (None if li is None else act.LINKS[li])
+
+
+def _pre_k6(st: int, wy: int, dp: int, c: int, l: int) -> bool:
+    from harness import _C08_act as act
+    case = ob.case()
+    if not (0 <= st < len(case['sites']) and 0 <= wy < len(case['ways']) and 0 <= dp < len(case['phases'])
+            and 0 <= c < len(case['consts']) and 0 <= l < len(case['links'])):
+        return False
+    site, way, dphase, const, link = _k6_cell(st, wy, dp, c, l)
+    if not (act.way_applies(site, way) and _k6_cell_is_meaningful(0 if dphase is None else 1, const, link)):
+        return False  # the way does not exist for the actor / unused selectors
+    with ob.untraced():  # every selector is concrete by now
+        # a legal reference that names a file that does not exist is outside the bound: the sites say nothing about it
+        return act.supported(site, way, dphase, const, link)
+
+
+def k6_act(st: int, wy: int, dp: int, c: int, l: int) -> bool:
+    """
+    pre: _pre_k6(st, wy, dp, c, l)
+    post: _
+    """
+    from harness import _C08_act as act
+    site, way, dphase, const, link = _k6_cell(st, wy, dp, c, l)
+    with ob.untraced():  # every selector is concrete by now
+        res = act.check(site, way, dphase, const, link, ob.case().get('oracle_bug'))
+    return ob.post(res is True)
+
+
 # ============================================================================ obligations
 
 def _order_ob(name, phases, kinds, names, layouts, timeout, **extra):
@@ -1531,6 +1619,63 @@ def obligations(tier: str) -> List[Ob]:
                                'files-source symbols (no instruction resolves them outside main)')))
     obs.append(_refute(Ob(name='K5:cli:seeded-oracle-error', fn='k5_cli', case=dict(uses=(5,), oracle_bug=True), kernel='K5',
                           selector=True, bound='seeded: the oracle expects PASS whatever the defined value', timeout=300)))
+    # ------------------------------------------------------------------ K6: references in the act phase, every actor
+    from harness import _C08_act as act
+    all_s = list(range(len(act.SITES)))
+    all_k = list(range(len(act.CONSTS)))
+    all_p = tuple(act.DEF_PHASES)
+    kl = {c: i for i, c in enumerate(act.CONST_LABELS)}
+    sl = {c: i for i, c in enumerate(act.SITE_LABELS)}
+    lk = {c: i for i, c in enumerate(act.LINK_LABELS)}
+
+    def k6_ob(name, sites, ways, phases, consts, links, timeout, **extra):
+        return Ob(name=name, fn='k6_act',
+                  case=dict(sites=tuple(sites), ways=tuple(ways), phases=tuple(phases), consts=tuple(consts), links=tuple(links),
+                            **extra),
+                  kernel='K6', selector=True,
+                  bound='the actor named %s; [setup] %s; X0 := one of %s%s, defined in %s; the action to check refers to the '
+                        'last defined symbol (the undefined name X0 if there is no definition) at one of the places %s; files %s '
+                        'exist in the home directory' % (
+                            ' / '.join({'case-conf': 'in [conf] of the test case', 'suite-conf': 'in [conf] of a suite the case belongs to',
+                                        'no-conf': 'nowhere (command line actor) or by --actor (source interpreter)'}[w] for w in ways),
+                            ' / '.join(act.SETUP_HELPERS), [act.CONST_LABELS[i] for i in consts],
+                            '' if tuple(links) == (None,) else '; then %s' % ' | '.join(
+                                'no further definition' if i is None else 'X1 := %s applied to X0' % act.LINK_LABELS[i] for i in links),
+                            ' / '.join('no phase (no definition)' if ph is None else '[%s]' % ph for ph in phases),
+                            ['%s: %s%s' % (act.SITES[i][0], '' if act.SITES[i][2] is None else 'actor = %s %s; [act] ' % (
+                                act.SITES[i][1], act.SITES[i][2]), act.SITES[i][3]) for i in sites],
+                            sorted(act.HOME_FILES)),
+                  timeout=timeout, real=REAL_K6,
+                  stubs=_STUBS_CLI[1:] + (
+                      'subprocess module at process_executor / preprocessor: recording stub that starts nothing, records argv, stdin, '
+                      'the files named by arguments and the result file stdout, and prints the line `out` (harness/_C08_act.py)',
+                      'the selectors are made concrete, then the real program runs natively (ob.untraced)',
+                      'sandbox_dir_resolving.mk_tmp_dir_with_prefix -> counter-named directories (suite)'),
+                  entry='MainProgram.execute([FILE]) / MainProgram.execute(["--actor", INTERPRETER, FILE]) / '
+                        'MainProgram.execute(["suite", FILE])',
+                  outside=('places of a reference other than the catalogued; legal references that name a file that does not exist '
+                           '(the outcome then depends on file validation: C10 / C12)',
+                           'chains of more than two definitions at these places (K1:types covers the chains for the default actor)',
+                           'the wording of the error message'))
+
+    for i, ss in enumerate(_chunks(all_s, 6)):
+        obs.append(k6_ob('K6:act:direct:%d' % i, ss, ('case-conf',), all_p, all_k, (None,), 900))
+    chain_k = [kl[x] for x in ('string', 'list', 'path-home', 'text-source', 'text-transformer', 'program', 'builtin-TAB')]
+    all_links = list(range(len(act.LINKS)))
+    for i, ss in enumerate(_chunks(all_s, 6)):
+        if thorough:
+            obs.append(k6_ob('K6:act:chain:%d' % i, ss, ('case-conf',), all_p[1:], all_k, all_links, 3600))
+        else:
+            obs.append(k6_ob('K6:act:chain:%d' % i, ss, ('case-conf',), ('setup', 'before-assert'), chain_k, all_links, 1800))
+    ways_k = all_k if thorough else [kl[x] for x in ('string', 'list', 'path-result', 'text-matcher', 'program')]
+    for i, ss in enumerate(_chunks(all_s, 8)):
+        obs.append(k6_ob('K6:act:ways:%d' % i, ss, ('suite-conf', 'no-conf'), all_p, ways_k, (None,), 1800))
+    obs.append(_refute(k6_ob('K6:act:seeded-oracle-error:late-definition-visible',
+                             [sl['file:argument'], sl['source:line'], sl['command:stdin']], ('case-conf',), all_p,
+                             [kl['string']], (None,), 300, oracle_bug='late-is-visible')))
+    obs.append(_refute(k6_ob('K6:act:seeded-oracle-error:list-is-one-argument',
+                             [sl['file:argument'], sl['command:argument']], ('case-conf', 'suite-conf'), ('setup',),
+                             [kl['string'], kl['list']], (None, lk['list']), 300, oracle_bug='list-is-one-argument')))
     names = [o.name for o in obs]
     assert len(names) == len(set(names)), 'duplicate obligation names'
     return obs
